@@ -446,7 +446,9 @@ def lutInit (first : Int) (bits : Nat) (data : List Nat) : Except ErrKind LutDs 
   if data.length > 2 ^ 16 then .error .value else
   let lenData : Int := if data.length = 2 ^ 16 then 0 else (data.length : Int)
   if bits ≠ 16 ∧ bits ≠ 8 then .error .value else
-  .ok ⟨[lenData, first, (bits : Int)], encodeEntries bits data⟩
+  -- 8-bit tables with an odd number of entries are padded to whole 16-bit words
+  let pad : List Nat := if bits = 8 ∧ data.length % 2 = 1 then [0] else []
+  .ok ⟨[lenData, first, (bits : Int)], encodeEntries bits data ++ pad⟩
 
 def descr (ds : LutDs) (i : Nat) : Except ErrKind Int :=
   match ds.descriptor[i]? with
